@@ -311,25 +311,25 @@ Example tridiag_det_is_det_nonvacuous :
 Proof. cbv zeta. unfold wfT. cbn [tn tmain tsub tsup length]. repeat split; auto. Qed.
 
 (* ---- over the reals: a strictly (row) diagonally dominant system is never refused ----
-   [AR] is the Arith of Coq's real numbers (division by 0 = Panic DivZero, == decided by Req_EM_T);
+   [AR_c05] is the Arith of Coq's real numbers (division by 0 = Panic DivZero, == decided by Req_EM_T);
    [dominant t] : for every row i < n,  |main[i]| > |sub[i-1]| + |sup[i]|  (a missing neighbour counts 0).
    Every pivot then satisfies |beta_k| > |sup[k]| >= 0.  This is the exact-arithmetic half of what the
    property says about diagonally dominant f64 systems; rounding (backward stability) is not proved. *)
 From Coq Require Import Reals Lra.
 From OV Require Import Proofs.TridiagDominant.
-Theorem thomas_dominant_never_refuses : forall (t : tridiag AR) (r : list AR),
+Theorem thomas_dominant_never_refuses : forall (t : tridiag AR_c05) (r : list AR_c05),
   wfT t -> dominant t -> (1 <= tn t)%nat -> length r = tn t ->
   exists u, tsolve t r = Ok u /\ length u = tn t /\
     forall i, (i < tn t)%nat -> sum_n (tn t) (fun j => (dense t i j * nth j u zero)%A) = nth i r zero.
 Proof. intros t r W D. exact (dominant_solved_lemma t W D r). Qed.
-Check thomas_dominant_never_refuses : forall (t : tridiag AR) (r : list AR),
+Check thomas_dominant_never_refuses : forall (t : tridiag AR_c05) (r : list AR_c05),
   wfT t -> dominant t -> (1 <= tn t)%nat -> length r = tn t ->
   exists u, tsolve t r = Ok u /\ length u = tn t /\
     forall i, (i < tn t)%nat -> sum_n (tn t) (fun j => (dense t i j * nth j u zero)%A) = nth i r zero.
 Print Assumptions thomas_dominant_never_refuses.
 (* [[4,1,0],[1,-4,2],[0,-1,3]] is dominant *)
 Example thomas_dominant_nonvacuous :
-  let t := @mkT AR [1%R; (-1)%R] [4%R; (-4)%R; 3%R] [1%R; 2%R] 3 in
+  let t := @mkT AR_c05 [1%R; (-1)%R] [4%R; (-4)%R; 3%R] [1%R; 2%R] 3 in
   wfT t /\ dominant t /\ (1 <= tn t)%nat.
 Proof.
   cbv zeta. split; [unfold wfT; cbn; auto|]. split; [|cbn; auto].
